@@ -59,3 +59,34 @@ pub fn native_tier(f: fn() -> &'static zipora::system::cpu_features::CpuFeatures
         let _ = zipora::system::cpu_features::verif_set_cpu_features(f().clone());
     }
 }
+
+/// `core::slice::memchr::memchr` as its definition (first index holding `x`); std's version scans
+/// word-at-a-time from an alignment-dependent start, which multiplies symbolic-execution paths.
+pub fn memchr_naive(x: u8, text: &[u8]) -> Option<usize> {
+    let mut i = 0;
+    while i < text.len() {
+        if text[i] == x {
+            return Some(i);
+        }
+        i += 1;
+    }
+    None
+}
+
+/// `core::str::from_utf8` for harnesses whose inputs are ASCII by construction: asserts that and
+/// skips std's alignment-dependent word-at-a-time validator.
+pub fn from_utf8_ascii(v: &[u8]) -> Result<&str, core::str::Utf8Error> {
+    let mut i = 0;
+    while i < v.len() {
+        assert!(v[i] < 0x80, "from_utf8_ascii stub used on non-ASCII input");
+        i += 1;
+    }
+    Ok(unsafe { core::str::from_utf8_unchecked(v) })
+}
+
+/// `std::hash::RandomState::new` (reads the per-thread SipHash seed from the OS with getrandom(2)
+/// on first use): a state with an arbitrary pair of keys. `RandomState` is exactly its two `u64` keys.
+pub fn random_state_new() -> std::hash::RandomState {
+    let keys: (u64, u64) = (crate::common::vany(), crate::common::vany());
+    unsafe { core::mem::transmute::<(u64, u64), std::hash::RandomState>(keys) }
+}
